@@ -435,6 +435,14 @@ class AtomicSaver:
                 raise
         return
 
+    def _rm_part_file(self):
+        if self.rm_part_on_exc:
+            try:
+                os.unlink(self.part_path)
+            except Exception:
+                pass  # avoid masking original error
+        return
+
     def setup(self):
         """Called on context manager entry (the :keyword:`with` statement),
         the ``setup()`` method creates the temporary file in the same
@@ -465,10 +473,19 @@ class AtomicSaver:
 
     def __exit__(self, exc_type, exc_val, exc_tb):
         if self.part_file:
-            # Ensure data is flushed and synced to disk before closing
-            self.part_file.flush()
-            os.fsync(self.part_file.fileno())
-            self.part_file.close()
+            try:
+                # Ensure data is flushed and synced to disk before closing
+                self.part_file.flush()
+                os.fsync(self.part_file.fileno())
+                self.part_file.close()
+            except Exception:
+                # part file is incomplete, never move it into place
+                try:
+                    self.part_file.close()
+                except Exception:
+                    pass
+                self._rm_part_file()
+                raise
         if exc_type:
             if self.rm_part_on_exc:
                 try:
